@@ -96,9 +96,10 @@ pub fn drive(tr: &mut Tracer, rng: &mut StdRng, thorough: bool) {
     for b in [0x7FF0000000000000u64, 0x7FF8000000000000, 0xFFF0000000000000, 0, 1 << 63, 1] {
         tr.emit(json!({"op": "de_token", "ty": "f64", "bits": u128_to_json(b as u128)}));
     }
-    for ty in ["bool", "char", "unit", "bytes"] {
+    for ty in ["bool", "unit", "bytes"] {
         tr.emit(json!({"op": "de_token", "ty": ty}));
     }
+    tr.emit(json!({"op": "de_token", "ty": "char", "text": text_to_json("7")}));
     for s in ["12.5", "-1e3", " 1", "", "1_0", ".+5", "٣", "1e99999999999999999999"] {
         tr.emit(json!({"op": "de_token", "ty": "str", "text": text_to_json(s)}));
         tr.emit(json!({"op": "de_token", "ty": "string", "text": text_to_json(s)}));
